@@ -61,7 +61,9 @@ fn run_route(rt: &tokio::runtime::Runtime, ctx: &SessionContext, route: Route) -
                             let m = e.to_string();
                             if m.to_lowercase().contains("placeholder") { format!("UNINFERABLE?: {m}") } else { m }
                         };
-                        let df = ctx.sql(s).await.map_err(tag)?;
+                        // planning the text with UNTYPED placeholders: a failure here means the
+                        // planner could not infer the placeholder types (it treats them as Null)
+                        let df = ctx.sql(s).await.map_err(|e| format!("UNINFERABLE?: {e}"))?;
                         df.with_param_values(vals).map_err(tag)?
                     }
                 };
@@ -140,7 +142,10 @@ fn sorted_by(q: &Query, rows: &[Vec<Val>]) -> bool {
 fn same_result(q: &Query, seq: bool, a: &Out, b: &Out) -> Result<(), String> {
     match (a, b) {
         (Ok((ra, sa)), Ok((rb, sb))) => {
-            if sa != sb {
+            // names and logical types must agree; a column that one route still declares with the
+            // unknown type `Null` (an untyped placeholder in a SELECT list) is not compared
+            let differs = sa.len() != sb.len() || sa.iter().zip(sb.iter()).any(|(x, y)| x.0 != y.0 || (x.1 != y.1 && x.1 != "Null" && y.1 != "Null"));
+            if differs {
                 return Err(format!("schemas differ: {sa:?} vs {sb:?}"));
             }
             if seq {
@@ -198,7 +203,8 @@ pub fn run(run: &mut Run, args: &Args) {
             let rng2 = &mut rng;
             let params2 = &mut params;
             q0.map_exprs(&mut |e| match e {
-                Expr::Lit(v, ty, _) if params2.len() < 8 && { n_lits += 1; rng2.chance(dens, 3) } => {
+                // (a bare `NULL` has no type of its own in the text: it stays a literal)
+                Expr::Lit(v, ty, bare) if !(bare && v == Val::Null) && params2.len() < 8 && { n_lits += 1; rng2.chance(dens, 3) } => {
                     // reuse a placeholder for an identical value sometimes ($1 used twice)
                     if let Some(i) = params2.iter().position(|(pv, pt)| *pv == v && *pt == ty) {
                         if rng2.chance(1, 2) {
@@ -211,6 +217,34 @@ pub fn run(run: &mut Run, args: &Args) {
                 e => e,
             })
         };
+        // ---- literals that the SQL text does not show (e.g. the dummy argument of COUNT(*)) cannot be
+        //      parameters: keep only the placeholders that occur in the text, renumbered $1..$k
+        {
+            let text = q.sql();
+            let used: Vec<bool> = (0..params.len()).map(|i| {
+                let pat = format!("${}", i + 1);
+                text.match_indices(&pat).any(|(pos, _)| !text[pos + pat.len()..].starts_with(|c: char| c.is_ascii_digit()))
+            }).collect();
+            if used.iter().any(|u| !u) {
+                let mut newidx: Vec<Option<usize>> = vec![None; params.len()];
+                let mut kept: Vec<(Val, Ty)> = vec![];
+                for (i, u) in used.iter().enumerate() {
+                    if *u {
+                        newidx[i] = Some(kept.len());
+                        kept.push(params[i].clone());
+                    }
+                }
+                let old = params.clone();
+                q = q.map_exprs(&mut |e| match e {
+                    Expr::Ph(i, ty) => match newidx[i] {
+                        Some(n) => Expr::Ph(n, ty),
+                        None => Expr::Lit(old[i].0.clone(), ty, false),
+                    },
+                    e => e,
+                });
+                params = kept;
+            }
+        }
         // ---- parameterised outermost LIMIT / OFFSET
         let mut skip_arg = String::from("()");
         let mut fetch_arg = String::from("()");
@@ -224,13 +258,13 @@ pub fn run(run: &mut Run, args: &Args) {
                 lim_kind = "param";
                 let weird = rng.chance(1, 6);
                 if let Some(f) = fetch {
-                    let v = if weird { rng.pick(&[Val::Null, Val::Int(64, -1)]).clone() } else { Val::Int(64, f as i64) };
+                    let v = if weird { Val::Null } else { Val::Int(64, f as i64) };
                     params.push((v.clone(), Ty::Int(64)));
                     fetch_arg = format!("(ph {})", params.len() - 1);
                     lim_sql_p.push_str(&format!(" LIMIT ${}", params.len()));
                     lim_sql_l.push_str(&format!(" LIMIT {}", v.sql(Ty::Int(64), false)));
                     if weird {
-                        lim_kind = "param-null-or-negative";
+                        lim_kind = "param-null";
                     }
                 }
                 if skip > 0 || fetch.is_none() {
@@ -302,9 +336,57 @@ pub fn run(run: &mut Run, args: &Args) {
             }
         }
         // ---- implementation-level oracle: parameterised = literal
+        // the literal text itself may be rejected by the planner (e.g. two aggregate expressions that
+        // print alike after the casts are folded: "duplicate unqualified field name"): then there is no
+        // literal result to compare with — counted, not judged
+        let l_rejected = matches!(&out_l, Err(m) if ["plan", "notimpl"].contains(&err_class(m))) && out_e.is_ok();
+        if l_rejected {
+            run.count("L:rejected-by-planner-while-E-ok");
+        }
+        let out_l = if l_rejected { out_e.clone() } else { out_l };
         let r = same_result(&q, seq, &out_e, &out_l);
-        run.oracle(r.is_ok(), &format!("C41 execute-vs-literal :: {sql_p} :: {exec}"), &format!("{}; {replay}", r.err().unwrap_or_default()));
-        let w_judged = !matches!(&out_w, Err(m) if m.starts_with("UNINFERABLE?"));
+        let mut e_known = false;
+        if r.is_err() {
+            // is it the PREPARE-time optimisation?  PREPARE optimises the plan while the placeholders
+            // are still unknown; `push_down_filter` moves a column-free predicate (`HAVING $1`,
+            // `WHERE $1 > $2` over a derived table) below an aggregate without GROUP BY, which then
+            // produces its one row over the empty input.  Re-run the PREPARE route without that rule.
+            let ctx2 = make_ctx(&mut rng, &db);
+            ctx2.remove_optimizer_rule("push_down_filter");
+            let out_e2 = run_route(&rt, &ctx2, Route::PrepareExecute(&prep, &exec));
+            e_known = same_result(&q, seq, &out_e2, &out_l).is_ok();
+        }
+        let mut e_optdep = false;
+        if r.is_err() && !e_known {
+            // more generally: PREPARE runs the logical optimizer while the values are unknown, the
+            // literal statement is optimised with the values in place.  If both routes agree once the
+            // value-sensitive rules are removed, the difference is made by the optimizer, not by the
+            // substitution of the parameters.
+            let ctx3 = make_ctx(&mut rng, &db);
+            for rule in ["push_down_filter", "simplify_expressions", "optimize_unions", "optimize_projections", "propagate_empty_relation", "eliminate_filter", "common_sub_expression_eliminate", "eliminate_outer_join", "eliminate_limit", "push_down_limit"] {
+                ctx3.remove_optimizer_rule(rule);
+            }
+            let l3 = run_route(&rt, &ctx3, Route::Sql(&sql_l));
+            let e3 = run_route(&rt, &ctx3, Route::PrepareExecute(&prep, &exec));
+            e_optdep = same_result(&q, seq, &e3, &l3).is_ok();
+            e_known = e_optdep;
+        }
+        if e_optdep {
+            run.count("finding:G2");
+            run.oracle(false, &format!("C41 G2 prepare-time-optimization-differs-from-literal :: {sql_p} :: {exec}"), &format!("{}; both routes agree once the value-sensitive optimizer rules are removed; {replay}", r.err().unwrap_or_default()));
+        } else if e_known {
+            run.count("finding:G1");
+            run.oracle(false, &format!("C41 G1 prepare-pushes-parameter-filter-below-global-aggregate :: {sql_p} :: {exec}"), &format!("{}; equal to the literal statement once optimizer rule push_down_filter is removed; {replay}", r.err().unwrap_or_default()));
+        } else {
+            run.oracle(r.is_ok(), &format!("C41 execute-vs-literal :: {sql_p} :: {exec}"), &format!("{}; {replay}", r.err().unwrap_or_default()));
+        }
+        // a route that the planner rejects (planning / not-implemented error, no rows at all) while the
+        // literal text runs is an engine limitation met through that route — counted, not judged
+        let w_rejected = matches!(&out_w, Err(m) if !m.starts_with("UNINFERABLE?") && ["plan", "notimpl"].contains(&err_class(m))) && out_l.is_ok();
+        if w_rejected {
+            run.count("W:rejected-by-planner-while-L-ok");
+        }
+        let w_judged = !w_rejected && !matches!(&out_w, Err(m) if m.starts_with("UNINFERABLE?"));
         if w_judged {
             let r = same_result(&q, seq, &out_w, &out_l);
             run.oracle(r.is_ok(), &format!("C41 with_param_values-vs-literal :: {sql_p} :: {exec}"), &format!("{}; {replay}", r.err().unwrap_or_default()));
@@ -312,7 +394,10 @@ pub fn run(run: &mut Run, args: &Args) {
         // ---- correspondence with the Lean reference (both routes and the literal text)
         let ps = format!("({})", params.iter().map(|(v, _)| v.sexp()).collect::<Vec<_>>().join(" "));
         let nontrivial = structural && matches!(&out_l, Ok((r, _)) if !r.is_empty());
-        run.case("query", &format!("({mode} {plan} {skip_arg} {fetch_arg} {dbs} {ps} {} {})", impl_sexp(&out_e), impl_sexp(&out_l)), "ok", nontrivial);
+        // (a known deviation of the PREPARE route is reported by the oracle above, not a second time
+        //  through the model: the literal statement is judged instead)
+        let e_for_model = if e_known { &out_l } else { &out_e };
+        run.case("query", &format!("({mode} {plan} {skip_arg} {fetch_arg} {dbs} {ps} {} {})", impl_sexp(e_for_model), impl_sexp(&out_l)), "ok", nontrivial);
         if w_judged {
             run.case("query", &format!("({mode} {plan} {skip_arg} {fetch_arg} {dbs} {ps} {} {})", impl_sexp(&out_w), impl_sexp(&out_l)), "ok", false);
         }
